@@ -118,6 +118,22 @@ def _head_content_path(x, with_tag):
     return _re.sub(r"<script type=\"application/html-dependencies\">[^<]*</script>", "<listing/>", out)
 
 
+def _edit_after_render(x, how):
+    """The text arrives by an edit that keeps the number of children, after the element was already rendered once."""
+    t = div("first", "old text", "last") if how != "taglist" else ht.TagList("first", "old text", "last")
+    t.get_html_string()
+    str(t)
+    kids = t if how == "taglist" else t.children
+    if how == "pop_insert":
+        kids.pop(1)
+        kids.insert(1, x)
+    elif how == "slice":
+        kids[1:2] = [x]
+    else:
+        kids[1] = x
+    return t.get_html_string()
+
+
 def _doc_append(x):
     d = ht.HTMLDocument(div("a"))
     d.append(x, span("z"))
@@ -125,6 +141,10 @@ def _doc_append(x):
 
 
 PATHS = {
+    "setitem_after_render": lambda x: _edit_after_render(x, "setitem"),
+    "setitem_taglist_after_render": lambda x: _edit_after_render(x, "taglist"),
+    "pop_insert_after_render": lambda x: _edit_after_render(x, "pop_insert"),
+    "slice_assign_after_render": lambda x: _edit_after_render(x, "slice"),
     "head_content_text": lambda x: _head_content_path(x, False),
     "head_content_text_and_tag": lambda x: _head_content_path(x, True),
     "dependency_head_list": lambda x: ht.HTMLDocument(div(ht.HTMLDependency("d", "1", head=[x, ht.tags.title("t")]))).render()["html"],
@@ -190,6 +210,9 @@ PATHS = {
     "taglist_add_list": lambda x: (ht.TagList(p()) + [x, span()]).get_html_string(),
     "tag_attr_and_child": lambda x: div({"title": "t"}, x, id="i").get_html_string(),
 }
+# paths whose operation takes a node or an iterable, not a bare number (item assignment stores what it is given: numbers are
+# converted by the child-adding operations - constructor, append, extend, insert, + - which is where the statement puts them)
+NOT_FOR_NUMBERS = ("taglist_add", "taglist_radd", "tagify_single", "taglist_iadd_str", "setitem_after_render", "setitem_taglist_after_render", "slice_assign_after_render")
 QUICK_BLOCK_PATHS = ["only_child_block", "middle_inline", "list_indent3", "tagify_list", "append", "between_blocks"]
 
 
@@ -217,6 +240,9 @@ def check_case(ctx, path, s, is_num=False):
     """s is the leaf (str, or a number when is_num)."""
     original = str(s)
     parts, tagseq, n = _placeholder(path)
+    if n == 0:
+        ctx.violation("text-leaf-not-emitted", "path %s: a leaf placed as a child does not occur in the output at all" % path, {"path": path, "leaf": original[:300]})
+        return
     try:
         out = PATHS[path](s)
     except Exception as e:
@@ -368,7 +394,7 @@ def _run(ctx):
 
     # 3b. value-equal numbers of different types (and falsy ones) through every path
     for pth in paths:
-        if pth in ("taglist_add", "taglist_radd", "tagify_single", "taglist_iadd_str"):
+        if pth in NOT_FOR_NUMBERS:
             continue
         for v in (0, 0.0, -0.0, False, True, 1, 1.0, -1, 10**20, 1e20):
             check_case(ctx, pth, v, True)
@@ -377,7 +403,7 @@ def _run(ctx):
     # 4. random hostile strings and numbers
     for _ in range(ctx.budget(3000, 3000000)):
         pth = rng.choice(paths)
-        if rng.random() < 0.15 and pth not in ("taglist_add", "taglist_radd", "tagify_single", "taglist_iadd_str"):
+        if rng.random() < 0.15 and pth not in NOT_FOR_NUMBERS:
             v = gen._num(gen.number_of(rng))
             if rng.random() < 0.3:
                 v = HostileInt(rng.randint(-5, 99)) if rng.random() < 0.5 else HostileFloat(rng.random())
